@@ -32,13 +32,14 @@ def matrix_table():
                     ("round 3 (as first measured)", "MATRIX-round3-first.json"), ("round 3 (after strengthening)", "MATRIX-round3.json"),
                     ("round 4 (as first measured)", "MATRIX-round4-first.json"), ("round 4 (after strengthening)", "MATRIX-round4.json"),
                     ("round 5 (as first measured)", "MATRIX-round5-first.json"), ("round 5 (with E15 and Cnn.RV)", "MATRIX-round5.json"),
-                    ("round 6 (as first measured, E15 and Cnn.RV in place)", "MATRIX-round6-first.json")):
+                    ("round 6 (as first measured, E15 and Cnn.RV in place)", "MATRIX-round6-first.json"),
+                    ("round 7 (as first measured)", "MATRIX-round7-first.json")):
         p = os.path.join(VERIF, "seeded", fn)
         if not os.path.exists(p):
             continue
         m = json.load(open(p))["results"]
         if rnd.startswith("round 1"):
-            m = {k: v for k, v in m.items() if "-r2" not in k and "-r3" not in k and "-r4" not in k and "-r5" not in k and "-r6" not in k}
+            m = {k: v for k, v in m.items() if "-r2" not in k and "-r3" not in k and "-r4" not in k and "-r5" not in k and "-r6" not in k and "-r7" not in k}
         if rnd.startswith("round 2"):
             m = {k: v for k, v in m.items() if "-r2" in k}
         if rnd.startswith("round 3"):
@@ -49,6 +50,8 @@ def matrix_table():
             m = {k: v for k, v in m.items() if "-r5" in k}
         if rnd.startswith("round 6"):
             m = {k: v for k, v in m.items() if "-r6" in k}
+        if rnd.startswith("round 7"):
+            m = {k: v for k, v in m.items() if "-r7" in k}
         if not m:
             continue
         live = {k: v for k, v in m.items() if not v.get("retired")}
